@@ -174,6 +174,14 @@ def check_backends(A, rep):
         stores = [n.id for n in live(g) if n.kind == "local_mut" and own(n)]
         ok = bool(heads)
         wit = []
+        if not heads:
+            # built by one comprehension over the data: total by construction unless it filters
+            rv_ = g.nodes[g.exit]["ret"]
+            alts_ = rv_.args if rv_ is not None and rv_.kind == "phi" else (rv_,)
+            comps = [a for a in alts_ if a is not None and a.kind == "comp"]
+            if comps and len(comps) == len([a for a in alts_ if a is not None]) and all(
+                    (len(c_.args) < 4 or not c_.args[3]) and any(x.kind == "data" for it in c_.args[2] for x in it.walk()) for c_ in comps):
+                ok = True
         for h in heads:
             succs = [y for (y, l) in g.succ[h.id]]
             r = g.reachable_from(succs, avoid=stores)
